@@ -171,15 +171,32 @@ pub struct Case {
     /// selects among equivalent spellings of the options (-z/--lazy, -q/--quiet, -o/--output,
     /// --output=F, --global=k=v) and their order relative to the positionals
     pub spelling: u64,
+    /// how the three files are named: 0 plain, 1 blanks and non-ASCII letters in the names,
+    /// 2 inside a sub-directory, 3 absolute paths
+    pub naming: u8,
 }
 
 impl Case {
+    /// (DSL file, source file, output file) as given on the command line
+    fn names(&self, dir: &Path) -> (String, String, String) {
+        match self.naming {
+            1 => ("my prög.tsg".into(), "sörce file.py".into(), "out püt.json".into()),
+            2 => ("sub dir/prog.tsg".into(), "sub dir/src.py".into(), "sub dir/out.json".into()),
+            3 => (
+                dir.join("prog.tsg").to_string_lossy().to_string(),
+                dir.join("src.py").to_string_lossy().to_string(),
+                dir.join("out.json").to_string_lossy().to_string(),
+            ),
+            _ => ("prog.tsg".into(), "src.py".into(), "out.json".into()),
+        }
+    }
+
     fn to_json(&self) -> J {
         json!({
             "tsg": self.tsg, "source": self.source, "lazy": self.lazy, "json": self.json, "output": self.output,
             "output_preexisting": self.output_preexisting, "quiet": self.quiet, "allow_parse_errors": self.allow_parse_errors,
             "globals": self.globals.iter().map(|(k, v)| json!([k, v])).collect::<Vec<_>>(),
-            "fault": self.fault.to_json(), "kind": self.kind, "argv": self.argv(), "spelling": self.spelling,
+            "fault": self.fault.to_json(), "kind": self.kind, "argv": self.argv(Path::new("<sandbox>")), "spelling": self.spelling, "naming": self.naming,
         })
     }
     fn from_json(j: &J) -> Case {
@@ -199,9 +216,11 @@ impl Case {
             fault: Fault::from_json(&j["fault"]),
             kind: j["kind"].as_str().unwrap_or("").into(),
             spelling: j["spelling"].as_u64().unwrap_or(0),
+            naming: j["naming"].as_u64().unwrap_or(0) as u8,
         }
     }
-    fn argv(&self) -> Vec<String> {
+    fn argv(&self, dir: &Path) -> Vec<String> {
+        let (n_tsg, n_src, n_out) = self.names(dir);
         let mut r = Rng::new(self.spelling);
         // option groups (an option and its value stay together)
         let mut groups: Vec<Vec<String>> = Vec::new();
@@ -213,9 +232,9 @@ impl Case {
         }
         if self.output {
             groups.push(match if self.spelling == 0 { 0 } else { r.below(3) } {
-                0 => vec!["--output".into(), "out.json".into()],
-                1 => vec!["-o".into(), "out.json".into()],
-                _ => vec!["--output=out.json".into()],
+                0 => vec!["--output".into(), n_out.clone()],
+                1 => vec!["-o".into(), n_out.clone()],
+                _ => vec![format!("--output={}", n_out)],
             });
         }
         if self.quiet {
@@ -241,11 +260,11 @@ impl Case {
         for g in &groups[..cut1] {
             a.extend(g.iter().cloned());
         }
-        a.push("prog.tsg".into());
+        a.push(n_tsg);
         for g in &groups[cut1..cut2] {
             a.extend(g.iter().cloned());
         }
-        a.push("src.py".into());
+        a.push(n_src);
         for g in &groups[cut2..] {
             a.extend(g.iter().cloned());
         }
@@ -355,17 +374,25 @@ pub fn run_cli(c: &Case, tag: &str) -> Result<Observed, String> {
     } else {
         c.source.clone().into_bytes()
     };
+    let (n_tsg, n_src, n_out) = c.names(&dir);
+    let (p_tsg, p_src, p_out) = (dir.join(&n_tsg), dir.join(&n_src), dir.join(&n_out));
+    if let Some(parent) = p_tsg.parent() {
+        std::fs::create_dir_all(parent).map_err(|e| e.to_string())?;
+    }
     if c.fault != Fault::MissingTsg {
-        std::fs::write(dir.join("prog.tsg"), &tsg_bytes).map_err(|e| e.to_string())?;
+        std::fs::write(&p_tsg, &tsg_bytes).map_err(|e| e.to_string())?;
     }
     if c.fault != Fault::MissingSource {
-        std::fs::write(dir.join("src.py"), &src_bytes).map_err(|e| e.to_string())?;
+        std::fs::write(&p_src, &src_bytes).map_err(|e| e.to_string())?;
     }
     if let Some(pre) = &c.output_preexisting {
-        std::fs::write(dir.join("out.json"), pre).map_err(|e| e.to_string())?;
+        std::fs::write(&p_out, pre).map_err(|e| e.to_string())?;
     }
+    // the shim recognises the files by the last component of their names
+    let last = |s: &str| s.rsplit('/').next().unwrap_or(s).to_string();
+    let (l_tsg, l_src, l_out) = (last(&n_tsg), last(&n_src), last(&n_out));
     let mut cmd = Command::new(CLI);
-    cmd.args(c.argv())
+    cmd.args(c.argv(&dir))
         .current_dir(&dir)
         .env_clear()
         .env("PATH", "/usr/bin:/bin")
@@ -375,7 +402,7 @@ pub fn run_cli(c: &Case, tag: &str) -> Result<Observed, String> {
         .env("NO_COLOR", "1")
         .env("LD_PRELOAD", SHIM)
         .env("IOSHIM_STATS", dir.join("shim.stats"))
-        .env("IOSHIM_OUT_SUFFIX", "out.json")
+        .env("IOSHIM_OUT_SUFFIX", &l_out)
         .stdin(Stdio::null())
         .stdout(Stdio::piped())
         .stderr(Stdio::piped());
@@ -391,10 +418,10 @@ pub fn run_cli(c: &Case, tag: &str) -> Result<Observed, String> {
             cmd.env("IOSHIM_HASH", hash.to_string());
         }
         Fault::UnreadableTsg => {
-            cmd.env("IOSHIM_OPEN_EACCES", "prog.tsg");
+            cmd.env("IOSHIM_OPEN_EACCES", &l_tsg);
         }
         Fault::UnreadableSource => {
-            cmd.env("IOSHIM_OPEN_EACCES", "src.py");
+            cmd.env("IOSHIM_OPEN_EACCES", &l_src);
         }
         Fault::StdoutFail { n, errno } => {
             cmd.env("IOSHIM_WFAIL", format!("stdout:{}:{}", n, errno));
@@ -403,7 +430,7 @@ pub fn run_cli(c: &Case, tag: &str) -> Result<Observed, String> {
             cmd.env("IOSHIM_WFAIL", format!("out:{}:{}", n, errno));
         }
         Fault::OutCreateFail => {
-            cmd.env("IOSHIM_CREATE_FAIL", "out.json");
+            cmd.env("IOSHIM_CREATE_FAIL", &l_out);
         }
         _ => {}
     }
@@ -412,7 +439,7 @@ pub fn run_cli(c: &Case, tag: &str) -> Result<Observed, String> {
         status: out.status.code(),
         stdout: out.stdout,
         stderr: out.stderr,
-        out_file: std::fs::read(dir.join("out.json")).ok(),
+        out_file: std::fs::read(&p_out).ok(),
         stats: Default::default(),
     };
     if let Ok(s) = std::fs::read_to_string(dir.join("shim.stats")) {
@@ -603,6 +630,7 @@ pub fn make_case(ctx: &ShardCtx, i: u64) -> Case {
         fault,
         kind: kind.to_string(),
         spelling: if r.chance(1, 4) { 0 } else { r.next() | 1 },
+        naming: *r.pick(&[0u8, 0, 0, 1, 2, 3]),
     }
 }
 
@@ -638,13 +666,15 @@ fn minimise(c: &Case, f: Found, tag: &str) -> (Case, Found) {
         false
     };
     // simpler options and no fault first
-    for step in 0..6 {
+    for step in 0..8 {
         if budget == 0 {
             break;
         }
         budget -= 1;
         let mut cand = best.clone();
         match step {
+            6 => cand.naming = 0,
+            7 => cand.spelling = 0,
             0 => cand.fault = Fault::None,
             1 => cand.quiet = false,
             2 => cand.allow_parse_errors = false,
@@ -795,7 +825,7 @@ pub fn run_shard(ctx: &ShardCtx, rep: &mut Report) {
             rep.distinct("cases", rng::hash_str(&case.to_json().to_string()));
         }
         rep.sample(3, || {
-            json!({"argv": case.argv(), "tsg": case.tsg, "source": case.source, "fault": case.fault.to_json(),
+            json!({"argv": case.argv(Path::new("<sandbox>")), "tsg": case.tsg, "source": case.source, "fault": case.fault.to_json(),
                    "expected": match &exp { Expect::Fail(w) => format!("failure ({})", w), Expect::Pretty(_) => "pretty graph on stdout".into(), Expect::JsonStdout(_) => "JSON on stdout".into(), Expect::JsonFile(_) => "JSON in out.json, nothing on stdout".into(), Expect::QuietNothing => "nothing on stdout".into() },
                    "observed_status": o.status, "stdout_bytes": o.stdout.len(), "stderr_bytes": o.stderr.len(), "shim": o.stats})
         });
@@ -807,7 +837,7 @@ pub fn run_shard(ctx: &ShardCtx, rep: &mut Report) {
                 rep.violation(Violation {
                     class: f2.class.to_string(),
                     signature: signature(&c2, &f2),
-                    summary: format!("tree-sitter-graph {} : {}", c2.argv().join(" "), f2.detail),
+                    summary: format!("tree-sitter-graph {} : {}", c2.argv(Path::new("<sandbox>")).join(" "), f2.detail),
                     scenario: c2.to_json(),
                 });
             }
